@@ -376,6 +376,135 @@ def c16_explore(arg):
     return out
 
 
+# several input resources of one target: one watcher per extension group, an event reaches every watcher that covers its path
+C16_DECLS = [
+    ('nested_path_other_filter', [(['/p/src'], ['.rs']), (['/p/src/assets'], None)]),
+    ('same_path_two_filters', [(['/p/conf'], ['.toml']), (['/p/conf'], ['.json'])]),
+    ('nested_first', [(['/p/src/assets'], None), (['/p/src'], ['.rs'])]),
+]
+C16_EVENTS = ['/p/src/main.rs', '/p/src/notes.md', '/p/src/assets/logo.png', '/p/src/assets/x.rs', '/p/src/assets/.zinoma/q.png', '/p/src/assets/logo.png~',
+              '/p/conf/app.json', '/p/conf/app.toml', '/p/conf/app.md', '/p/elsewhere/x.rs']
+
+
+def relevant_multi(path, decl):
+    for ps, exts in decl:
+        if any(path == r or path.startswith(r.rstrip('/') + '/') for r in ps) and relevant_ref(path, exts):
+            return True
+    return False
+
+
+def c16_multi(arg):
+    name, decl, repo = arg
+    t0 = time.time()
+    out = {'case': name, 'error': None, 'obligations': [], 'paths': 0, 'functions': []}
+    try:
+        prog = Program(repo)
+        world = WatchWorld([], always_dirs=('/', '/p', '/p/src', '/p/src/assets', '/p/conf'))
+        I = Interp(prog, world, stubs={}, max_paths=40000)
+        fd = prog.find_fn('TargetWatcher::new')
+        ev1 = z3.BitVec('ev_path1', 4)
+
+        def init():
+            world.reset()
+            world.epoch = 1
+            I.frames.append(Frame(None, ('engine', 'watcher'), None))
+
+        def thunk():
+            inp = resources([files_resource(ps, ex) for ps, ex in decl])
+            r = I.deref(I.call_fn(fd, [tid('t'), some(inp), Opaque('Sender', chan='inval')]))
+            if r.variant != 'Ok':
+                return {'new': 'err'}
+            watched = [(d['idx'], d['path']) for k, d in I.effects if k == 'watch']
+            i1 = I.choose([ev1 == i for i in range(len(C16_EVENTS))])
+            q = C16_EVENTS[i1]
+            tries_before = I.fresh_counter.get('slot_full', 0)
+            delivered = []
+            for idx in range(len(world.handlers)):
+                if any(w == idx and (q == root or q.startswith(root.rstrip('/') + '/')) for w, root in watched):
+                    delivered.append(idx)
+                    I.call_value(world.handlers[idx], [ok(Opaque('Event', paths=RVec.of([q])))])
+            tried = I.fresh_counter.get('slot_full', 0) > tries_before
+            return {'new': 'ok', 'path': q, 'tried': tried, 'watched': watched, 'delivered': delivered}
+        I.solver.reset()
+        I.solver.add(z3.ULT(ev1, len(C16_EVENTS)))
+        paths = I.explore(thunk, init)
+        out['paths'] = len(paths)
+        out['functions'] = sorted(I.stats['fns'])
+        s = z3.Solver()
+        s.set('timeout', 60000)
+        s.add(z3.ULT(ev1, len(C16_EVENTS)))
+        res = {'name': 'every_input_resource_is_watched_with_its_own_filter[%s]' % name, 'verdict': 'unsat', 'checked_paths': 0}
+        other = z3.Or([z3.Bool('watch_other_error_%s' % r) for ps, e in decl for r in ps])
+        for p in paths:
+            c = p.cond()
+            cz = z3.BoolVal(c) if isinstance(c, bool) else c
+            res['checked_paths'] += 1
+            bad = None
+            if p.outcome != 'return':
+                bad = 'path ends with %s: %s' % (p.outcome, str(p.value)[:150])
+                extra = []
+            elif p.value['new'] == 'err':
+                bad = 'TargetWatcher::new failed although every declared path exists'
+                extra = [z3.Not(other)]
+            else:
+                v = p.value
+                rel = relevant_multi(v['path'], decl)
+                if rel != v['tried']:
+                    bad = 'event on %r: reference says %s, the watchers %s (watched: %s, delivered to: %s)' % (v['path'], 'relevant' if rel else 'irrelevant', 'try to notify' if v['tried'] else 'stay silent', v['watched'], v['delivered'])
+                extra = []
+            if bad is None:
+                continue
+            s.push(); s.add(cz, *extra)
+            r = s.check()
+            s.pop()
+            if r == z3.sat and res['verdict'] != 'sat':
+                res['verdict'] = 'sat'
+                res['detail'] = bad
+                res['event'] = p.value.get('path') if p.outcome == 'return' else None
+                res['decl'] = decl
+        out['obligations'].append(res)
+    except Unsupported as ex:
+        out['error'] = 'unsupported: %s' % ex
+    except Exception as ex:   # pragma: no cover
+        import traceback
+        out['error'] = 'exception: %s\n%s' % (ex, traceback.format_exc()[-1500:])
+    out['wall_s'] = round(time.time() - t0, 1)
+    return out
+
+
+def native_watch_multi(decl, event_path, repo):
+    """Real watcher code, several input resources: first build, one event delivered to every watcher covering its path, then
+    a certainly relevant change. Returns number of builds."""
+    binpath, info = build_native(repo)
+    root = tempfile.mkdtemp(prefix='zx-watchm-', dir=os.environ.get('VERIF_SCRATCH', '/var/tmp'))
+    try:
+        for d in ('/p/src/assets', '/p/conf'):
+            os.makedirs(root + d)
+        for f in C16_EVENTS:
+            if os.path.isdir(os.path.dirname(root + f)):
+                open(root + f, 'w').write('0')
+        lines = ['targets:', '  t:', '    build: echo t', '    input:']
+        for ps, ex in decl:
+            lines.append('      - paths: [%s]' % ', '.join(x[3:] for x in ps))
+            if ex is not None:
+                lines.append('        extensions: [%s]' % ', '.join('"%s"' % x for x in ex))
+        lines.append('      - cmd_stdout: date +%s%N')
+        open(root + '/p/zinoma.yml', 'w').write('\n'.join(lines) + '\n')
+        first = decl[0][0][0]
+        sure = [f for f in C16_EVENTS if relevant_multi(f, [decl[0]])][0]
+        sched = ['poll 0 t0.1 all', 'poll 2 t0.4 1', 'poll 0 t0.1 all', 'poll 2 t0.4 1', 'poll 0 t0.1 all', 'poll 2 -', 'poll 0 t0.1 all',
+                 'exitscript 0 echo t', 'poll 2 -', 'poll 0 t0.1 all',
+                 'write %s%s 1' % (root, event_path), 'notifyall %s%s' % (root, event_path), 'poll 2 t0.3 1', 'poll 0 t0.1 all', 'poll 2 -', 'poll 0 t0.1 all',
+                 'exitscript 0 echo t', 'poll 2 -', 'poll 0 t0.1 all',
+                 'signal', 'poll 1 -', 'poll 0 t0.0 1', 'drain']
+        r = run_native(binpath, root + '/p', ['--watch', 't'], sched, timeout=60)
+        spawns = sum(1 for l in r['log'] if l.startswith('proc_spawn'))
+        return spawns, r['rc'], [l for l in r['log'] if l.startswith('watch ') or l.startswith('notifyall')], r['stderr'][-300:]
+    finally:
+        shutil.rmtree(root, ignore_errors=True)
+
+
+
 def native_watch(exts, event_paths, repo, is_err=False):
     """Real watcher code over the notify model: deliver one event, then an ordinary change; returns (panicked, builds)."""
     binpath, info = build_native(repo)
@@ -521,6 +650,50 @@ def run(prop, tier, seed, repo, jobs):
                     samples.append({'obligation': ob['name'], 'verdict': 'sat (reproduced natively)', 'detail': ob.get('detail')})
                 else:
                     inconclusive.append('%s: solver counterexample did not reproduce (replay %s): %s' % (ob['name'], rpath, ob.get('detail')))
+        with Pool(min(jobs, len(C16_DECLS))) as pool:
+            mres = pool.map(c16_multi, [(n, d, repo) for n, d in C16_DECLS], chunksize=1)
+        for res in mres:
+            if res['error']:
+                inconclusive.append('%s: %s' % (res['case'], res['error']))
+                continue
+            fns |= set(res['functions'])
+            paths += res['paths']
+            for ob in res['obligations']:
+                nob += 1
+                if ob['verdict'] == 'unsat':
+                    ndis += 1
+                    samples.append({'obligation': ob['name'], 'verdict': 'unsat', 'queries': ob['checked_paths']})
+                    continue
+                if ob['verdict'] != 'sat':
+                    inconclusive.append('%s: solver %s' % (ob['name'], ob['verdict']))
+                    continue
+                rpath = os.path.join(common.REPLAYS, 'C16-%s.json' % ob['name'].replace('[', '-').replace(']', ''))
+                os.makedirs(common.REPLAYS, exist_ok=True)
+                confirmed, nat = False, None
+                try:
+                    if ob.get('event'):
+                        spawns, rc, wlog, tail = native_watch_multi(ob['decl'], ob['event'], repo)
+                        want = 2 if relevant_multi(ob['event'], ob['decl']) else 1
+                        nat = {'builds': spawns, 'expected_builds': want, 'rc': rc, 'watch_log': wlog, 'stderr': tail}
+                        confirmed = spawns != want
+                except Exception as ex:   # pragma: no cover
+                    nat = {'error': str(ex)}
+                json.dump({'kind': 'watch', 'obligation': ob, 'native': nat, 'confirmed': confirmed}, open(rpath, 'w'), indent=1, default=str)
+                if confirmed:
+                    violations.append(rpath)
+                    samples.append({'obligation': ob['name'], 'verdict': 'sat (reproduced natively)', 'detail': ob.get('detail')})
+                else:
+                    inconclusive.append('%s: solver counterexample did not reproduce (replay %s): %s' % (ob['name'], rpath, ob.get('detail')))
+        try:
+            spawns, rc, wlog, tail = native_watch_multi(C16_DECLS[0][1], '/p/src/assets/logo.png', repo)
+            spawns2, rc2, wlog2, tail2 = native_watch_multi(C16_DECLS[0][1], '/p/src/notes.md', repo)
+            if spawns != 2 or spawns2 != 1:
+                inconclusive.append('native multi-resource watcher validation: expected 2 and 1 builds, got %d and %d (%s)' % (spawns, spawns2, wlog))
+            else:
+                validated += 1
+                samples.append({'native_validation': 'two input resources: event under the nested unfiltered path -> rebuild; .md under the .rs-filtered path -> none'})
+        except Exception as ex:   # pragma: no cover
+            inconclusive.append('native multi-resource validation failed: %s' % ex)
         try:
             panicked, spawns, rc, tail = native_watch(['.rs'], ['/p/src/a.rs'], repo)
             if panicked or spawns != 3:
@@ -535,7 +708,7 @@ def run(prop, tier, seed, repo, jobs):
         'explanation': 'symbolic execution of the real listing / watcher code over a symbolic tree and symbolic events; one z3 query per path and per file (C15) or event (C16) against the reference semantics',
         'obligations': nob, 'discharged': ndis, 'paths': paths, 'evaluations': max(paths, 1), 'distinct_nontrivial': max(paths, 2),
         'rule': 'one evaluation = one feasible symbolic path', 'samples': samples or [{'note': 'none'}], 'functions_encoded': sorted(fns),
-        'bounds': [{'tree': [repr(x) for x in TREE], 'declarations': [n for n, d in DECLS]}] if prop == 'C15' else [{'event_paths': [repr(x) for x in EVENT_PATHS], 'paths_per_event': '1..2'}],
+        'bounds': [{'tree': [repr(x) for x in TREE], 'declarations': [n for n, d in DECLS]}] if prop == 'C15' else [{'event_paths': [repr(x) for x in EVENT_PATHS], 'paths_per_event': '1..2', 'multi_resource_declarations': [n for n, d in C16_DECLS], 'multi_resource_events': C16_EVENTS}],
         'traces_validated_against_impl': validated,
         'outside_claim': ['symbolic links', 'names outside the universe (byte-level exhaustiveness is the Kani tier, see DESIGN)', 'which events the real inotify back end emits'], 'exhaustive': False,
     }
